@@ -451,6 +451,12 @@ func (c *Ctx) ruleA3(rule string, fn *ssa.Function) []*seqLoop {
 		} else {
 			pass("ranged", "executes the element of %s", x.Describe(sl.ranged))
 		}
+		// every element is executed: the call is not under a further condition inside the loop
+		if gs := x.GuardsOfInLoop(e.call.Block()); len(gs) > 0 {
+			fail("every-element", e.call.Pos(), "the rule execution is conditional inside the loop (%s): some rules of the list would be skipped", x.describeGuards(gs))
+		} else {
+			pass("every-element", "executed unconditionally for every element")
+		}
 		// the err != nil test
 		var errIf *ssa.If
 		eachInstr(fn, func(in ssa.Instruction) {
